@@ -61,7 +61,7 @@ func ruleTreeConsts(c *Ctx, r *R) {
 		v := int64(-1)
 		instrs(ln, func(b *ssa.BasicBlock, i int, in ssa.Instruction) {
 			if ret, ok := in.(*ssa.Return); ok {
-				v, _ = evalConst(ret.Results[0], 0)
+				v, _ = evalConst(returnedValue(ret, 0), 0)
 			}
 		})
 		r.ok(v == mx+1, "tree|amalgam1.Len==maxKVs+1", ln.Pos(), "the amalgam of a full node plus one extra entry has maxKVs+1 entries")
@@ -357,7 +357,7 @@ func underfullResult(c *Ctx, call *ssa.Call, idx int, mn int64, depth int, seen 
 			return
 		}
 		n++
-		rv := ret.Results[idx]
+		rv := returnedValue(ret, idx)
 		// named results are spilled: the Return loads the result variable
 		if !underfullAt(c, rv, b, mn, depth+1, seen) {
 			good = false
@@ -794,7 +794,7 @@ func ruleTreeSearchCost(c *Ctx, r *R) {
 			if !ok || len(ret.Results) != 2 {
 				return
 			}
-			found, _ := ret.Results[1].(*ssa.Const)
+			found, _ := returnedValue(ret, 1).(*ssa.Const)
 			for _, g := range append(guardsOf(b), guardsOfSelf(b)...) {
 				if cf, ok := g.asCmp(); ok && cf.x == ssa.Value(cmpCall) && isConstInt(cf.y, 0) && found != nil {
 					if cf.op == token.LSS && found.Value.String() == "false" {
@@ -805,7 +805,7 @@ func ruleTreeSearchCost(c *Ctx, r *R) {
 					}
 				}
 			}
-			if found != nil && found.Value.String() == "false" && strings.HasSuffix(path(ret.Results[0]), "x.n") {
+			if found != nil && found.Value.String() == "false" && strings.HasSuffix(path(returnedValue(ret, 0)), "x.n") {
 				end = true
 			}
 		})
@@ -1112,7 +1112,7 @@ func returnsField(fn *ssa.Function, field string) bool {
 			return
 		}
 		n++
-		if !symOf(ret.Results[0], provEnv{}).fieldSuffix(field) {
+		if !symOf(returnedValue(ret, 0), provEnv{}).fieldSuffix(field) {
 			all = false
 		}
 	})
